@@ -52,7 +52,16 @@ pub trait Record {
     fn variant_span(&self, header: &Header) -> io::Result<usize> {
         let start = self.variant_start().transpose()?.unwrap_or(Position::MIN);
         let end = self.variant_end(header)?;
-        Ok(usize::from(end) - usize::from(start) + 1)
+
+        usize::from(end)
+            .checked_sub(usize::from(start))
+            .map(|n| n + 1)
+            .ok_or_else(|| {
+                io::Error::new(
+                    io::ErrorKind::InvalidData,
+                    "variant end position is before the start position",
+                )
+            })
     }
 
     /// Resolves the variant end position.
@@ -280,6 +289,28 @@ mod tests {
             record.variant_span(&Header::builder().set_file_format(VCF_4_5).build())?,
             4
         );
+
+        Ok(())
+    }
+
+    #[test]
+    fn test_variant_span_with_end_before_start() -> Result<(), Box<dyn std::error::Error>> {
+        use crate::variant::{record::info::field::key, record_buf::info::field::Value};
+
+        let record = RecordBuf::builder()
+            .set_variant_start(Position::try_from(8)?)
+            .set_reference_bases("A")
+            .set_info(
+                [(String::from(key::END_POSITION), Some(Value::from(5)))]
+                    .into_iter()
+                    .collect(),
+            )
+            .build();
+
+        assert!(matches!(
+            record.variant_span(&Header::builder().set_file_format(VCF_4_2).build()),
+            Err(e) if e.kind() == io::ErrorKind::InvalidData
+        ));
 
         Ok(())
     }
